@@ -40,7 +40,7 @@ CFG = dict(
     imports=["From Verif.C38 Require Import Names Model Spec Multi MultiSpec."],
     checker="check_case2",
     harness_dirs=["C19", "C38"],
-    n=dict(quick=160, thorough=5000),
+    n=dict(quick=160, thorough=1920),
     shard=25,
     rule="each case = a fresh in-memory datastore (C19 membackend) with an IPv4 pool (2-16 addresses, or none) and an IPv6 pool "
          "(2-8 addresses, or none), 1-3 containers (Kubernetes identifiers ns/pod + sandbox id, possibly sharing a pod, or plain CNI "
